@@ -9,6 +9,9 @@ model; every result and every complete state dump must be identical.
   * breadth-first enumeration of the reachable states for capacities 1 and 2 (every legal
     operation from every state found, bounded number of outstanding handles), flagged
     `exhaustive` in the evidence with whether the fixpoint was reached.
+Second tie: engine "cache-ring" — the extracted *pointer-level* model (Cache/CacheRing.v: next/prev
+arrays, split, counters, in-flight head) replays the same histories; its complete line, including
+the raw next/prev/split/inflight members, must equal what the driver printed from the real structure.
 Search: every state and every step the *implementation* printed is judged by the extracted
 spec (engine "cache-spec": CacheSpec.invb_clauses / step_okb_clauses)."""
 import re
@@ -56,6 +59,15 @@ def gen_case(rng, cap, maxops):
         else:
             ops.append("f")
     return ["%d" % cap] + ops
+
+
+RAW = re.compile(r" raw=\S* nx=\S* pv=\S*")
+
+
+def strip_raw(line):
+    """The C driver also prints the raw next/prev members (for the pointer-level model);
+    the list-level model and the spec judge do not look at them."""
+    return RAW.sub("", line)
 
 
 def segments(line):
@@ -167,18 +179,22 @@ def run_both(run, exe, cases, tag="cases"):
     model = core.run_model("cache", run.casefile("cache-%s.txt" % tag, lines))
     # a batch takes a second or two; a driver that hangs (unsigned counter underflow turns the
     # bounded loops of cache.c into 2^32 iterations) is cut off and the case reported as a crash
-    impl, crashes = run_impl_batch(run, exe, lines, timeout=20 if run.tier == "quick" else 300)
-    for i, l in enumerate(impl):
+    ring = core.run_model("cache-ring", run.casefile("cache-%s.txt" % tag, lines))
+    full, crashes = run_impl_batch(run, exe, lines, timeout=20 if run.tier == "quick" else 300)
+    for i, l in enumerate(full):
         if l == "NOT-RUN":
-            model[i] = "NOT-RUN"
-    return model, impl, crashes
+            model[i] = ring[i] = "NOT-RUN"
+    run.last_ring = (ring, full)
+    return model, [strip_raw(l) for l in full], crashes
 
 
-def run_one(run, exe, case):
+def run_one(run, exe, case, ring=False):
     cf = run.casefile("cache-one.txt", [" ".join(case)])
-    model = core.run_model("cache", cf)
+    model = core.run_model("cache-ring" if ring else "cache", cf)
     rc, out, err = core.run_impl(exe, [cf], timeout=10)
     impl = out.split("\n")[:-1]
+    if not ring:
+        impl = [strip_raw(l) for l in impl]
     return model, impl, rc, err
 
 
@@ -207,23 +223,24 @@ def concrete_failure(run, exe, case):
     return r != 0 or not im or bool(judge(run, im))
 
 
-def report(run, exe, case, concrete):
+def report(run, exe, case, concrete, ring=False):
     """Shrink a failing history and file the violation.  A history on which the implementation
-    itself goes wrong is shrunk with that predicate, so that the concrete input is kept."""
+    itself goes wrong is shrunk with that predicate, so that the concrete input is kept.
+    ring=True: the disagreement is with the pointer-level model (raw next/prev/split)."""
     cap = case[0]
 
     def fails(cand_ops):
         if concrete:
             return concrete_failure(run, exe, [cap] + cand_ops)
-        m, im, r, e = run_one(run, exe, [cap] + cand_ops)
+        m, im, r, e = run_one(run, exe, [cap] + cand_ops, ring)
         return r != 0 or not im or m != im
     ops = case[1:]
     if not fails(ops):
         run.count("unreproducible-disagreement")
         return
     small = core.shrink_list(ops, fails) if len(ops) > 1 else ops
-    m, im, r, e = run_one(run, exe, [cap] + small)
-    sv = judge(run, im) if im else {}
+    m, im, r, e = run_one(run, exe, [cap] + small, ring)
+    sv = judge(run, [strip_raw(l) for l in im]) if im else {}
     hist = " ".join([cap] + small)
     # first differing step, for the reader
     firstdiff = None
@@ -234,7 +251,7 @@ def report(run, exe, case, concrete):
                 firstdiff = {"step": i, "model": a[i] if i < len(a) else None,
                              "implementation": b[i] if i < len(b) else None}
                 break
-    replay = {"engine": "cache", "history": hist, "first_difference": firstdiff,
+    replay = {"engine": "cache-ring" if ring else "cache", "history": hist, "first_difference": firstdiff,
               "impl_exit": r, "impl_stderr_tail": e[-1800:], "spec_verdicts": sorted(sv.values()),
               "model_output": m, "implementation_output": im,
               "how": "bin/check C06 --replay <this file> replays the history through harness/cache_drv.c "
@@ -251,8 +268,10 @@ def report(run, exe, case, concrete):
         run.violation("spec", "cache.c contradicts the cache spec: %s; history: %s" % (v, hist), replay,
                       found_input=True, signature="cache spec " + v.split(": ", 1)[-1])
     else:
-        run.violation("tie", "correspondence cache (model CacheList.step vs cache.c) broken on history: %s"
-                      % hist, replay, found_input=False, signature="cache tie")
+        which = ("cache-ring (pointer-level model CacheRing.rstep vs cache.c, raw next/prev/split)" if ring
+                 else "cache (model CacheList.step vs cache.c)")
+        run.violation("tie", "correspondence %s broken on history: %s" % (which, hist), replay,
+                      found_input=False, signature="cache-ring tie" if ring else "cache tie")
 
 
 def compare(run, exe, cases, model, impl, crashes, note=True):
@@ -270,8 +289,12 @@ def compare(run, exe, cases, model, impl, crashes, note=True):
             if i < 2:
                 run.sample({"history": " ".join(c)[:300],
                             "implementation_last_step": segments(line)[-1][:400] if line else None})
+    ring, full = getattr(run, "last_ring", ([], []))
+    ring_bad = set(core.diff_lines(ring, full)) if len(ring) == len(cases) else set()
     concrete = sorted(set(spec_bad) | set(crashes), key=lambda i: len(cases[i]))
     tie_only = sorted(set(bad) - set(concrete), key=lambda i: len(cases[i]))
+    ring_only = sorted(ring_bad - set(concrete) - set(bad), key=lambda i: len(cases[i]))
+    run.count("histories-impl-differs-from-ring-model", len(ring_bad))
     run.count("histories-impl-contradicts-spec-or-crashes", len(concrete))
     run.count("histories-impl-differs-from-model", len(set(bad)))
     # a few of the shortest of each class; concrete contradictions first
@@ -284,7 +307,11 @@ def compare(run, exe, cases, model, impl, crashes, note=True):
             report(run, exe, cases[i], False)
     elif tie_only:
         run.count("tie-differences-not-reported-separately", len(tie_only))
-    return len(concrete) + len(tie_only)
+    if ring_only and not concrete and not tie_only:
+        # list-level view agrees, the raw pointers do not
+        for i in ring_only[:2]:
+            report(run, exe, cases[i], False, ring=True)
+    return len(concrete) + len(tie_only) + len(ring_only)
 
 
 def bfs(run, exe, cap, nkeys, maxrefs, max_states, max_hist):
@@ -353,9 +380,8 @@ def bfs(run, exe, cap, nkeys, maxrefs, max_states, max_hist):
 
 def check(run):
     run.trusted += ["harness/cache_drv.c: the client (handles, buffer fill pattern), the traversal of the real "
-                    "ring, the preset of the indeterminate key/state fields after cache_alloc",
-                    "modelled, not verified: the ring-level pointer surgery (add_entry_after/before, "
-                    "remove_entry, split updates) — observed through the traversal on every step, not proved"]
+                    "ring, the raw next/prev dump, the preset of the indeterminate key/state/inflight fields "
+                    "after cache_alloc"]
     run.assumptions += ["callers follow the client protocol of read.c/fcache.c: cache_insert/cache_discard only "
                         "through a handle obtained from a lookup that returned a non-valid entry, once per handle; "
                         "cache_put_entry once per other handle; cache_flush only with no handle outstanding; "
@@ -373,7 +399,8 @@ def check(run):
         case = rp["replay"]["history"].split()
         model, impl, crashes = run_both(run, exe, [case], "replay")
         print("model:          " + model[0])
-        print("implementation: " + (impl[0] if impl else ""))
+        print("ring model:     " + run.last_ring[0][0])
+        print("implementation: " + (run.last_ring[1][0] if run.last_ring[1] else ""))
         compare(run, exe, [case], model, impl, crashes)
         return
     cases = []
